@@ -23,7 +23,9 @@
 (*   Store("s"), PostAuthSend   createPostAuthAd + storeSession, send      *)
 (*   PostAuthRecv, Store("c")   read post-auth ad, storeClientSession      *)
 (*   ResumeRequest / ResumeReply / ResumeRecv   resumeSession,             *)
-(*                        handleSessionResumption                          *)
+(*                        handleSessionResumption (with or without reply)  *)
+(*   PreClientSend / PreServer / PreClientRecv   bare streams that exchange *)
+(*                        0/1 cleartext frames each way, SetSymmetricKey   *)
 (*   AppSend(e) / AppRecv(e)    first application message each way         *)
 (*   Abort(e)             any local failure / timeout / peer gone          *)
 (*   Modify, InsertFrame, RemoveFrame, Split, Merge   the relay (C04)      *)
@@ -48,7 +50,7 @@ CONSTANTS
   CMethods, SMethods,         \* sets of method lists (sequences of method names)
   CCiphers, SCiphers,         \* sets of cipher lists
   CmdModes,                   \* subset of BOOLEAN: command present / auth-only
-  Shapes,                     \* subset of {"full", "resume"}
+  Shapes,                     \* subset of {"full", "resume", "resume1", "pre00", "pre10", "pre01", "pre11"}
   SameLists,                  \* TRUE: client and server use the same method list (C04 shapes)
   RelayBudget,                \* number of relay actions allowed (0 = honest wire)
   AllowAbort,                 \* endpoints may abort spontaneously even on an untouched wire
@@ -126,7 +128,10 @@ Expected(c, s) ==
 -----------------------------------------------------------------------------
 VARIABLES
   cfg,        \* [c, s : [auth, enc, methods, ciphers], cmd : BOOLEAN], fixed at Init
-  shape,      \* "full" | "resume"
+  shape,      \* "full": negotiation; "resume": resumption with a reply; "resume1": resumption
+              \* without a reply (only c2s carries cleartext); "preXY": both ends hold a key
+              \* beforehand and exchange X cleartext frames c2s, then Y s2c, before installing it
+              \* (the four cleartext-prefix shapes neither / only c2s / only s2c / both)
   pc,         \* [End -> phase]
   chan,       \* [Dir -> Seq(Frame)] frames in flight (what the relay may touch)
   nsent,      \* [Dir -> Nat] frames put on the wire so far by the sender of the direction
@@ -185,7 +190,7 @@ InitRest ==
   /\ protSent = [e \in End |-> 0] /\ protRecv = [e \in End |-> 0]
   /\ confirmed = [e \in End |-> FALSE]
   /\ outcome = [e \in End |-> NoOutcome]
-  /\ stored = [e \in End |-> shape = "resume"]    \* a resumable session is cached on both ends
+  /\ stored = [e \in End |-> shape \in {"resume", "resume1"}]    \* a resumable session is cached on both ends
   /\ appAccepted = [e \in End |-> FALSE]
   /\ relayLeft = RelayBudget /\ tampered = FALSE
 
@@ -196,6 +201,9 @@ Init == LevelsFromConstants /\ InitRest
    relay did to it; prot: sealed under key kk; digs: the sender's frozen
    transcripts when this is its first protected frame.                       *)
 NoDigs == << >>
+PreShapes == {"pre00", "pre10", "pre01", "pre11"}
+PreC == shape \in {"pre10", "pre11"}       \* the client sends a cleartext frame before the key
+PreS == shape \in {"pre01", "pre11"}       \* the server does
 Frame(e, k, body) ==
   [k |-> k, d |-> Out(e), n |-> nsent[Out(e)] + 1, v |-> "orig",
    prot |-> FALSE, kk |-> NoKey, digs |-> NoDigs, body |-> body]
@@ -211,13 +219,24 @@ SendClear(e, f) ==
   /\ nsent' = [nsent EXCEPT ![Out(e)] = @ + 1]
   /\ sentClear' = IF frozen[e] \/ ~Hashed(f) THEN sentClear ELSE [sentClear EXCEPT ![e] = Append(@, Item(f))]
 
+(* The two frozen transcripts an end binds into (expects in) the first protected
+   frame.  A direction that carried nothing contributes the all-zero placeholder
+   - here the empty sequence - and that is decided PER DIRECTION: the other
+   direction's transcript still counts.  Bug "ZeroBothWhenOneEmpty": both become
+   the placeholder as soon as one of them is empty.                          *)
+Frozen(e) ==
+  IF "ZeroBothWhenOneEmpty" \in Bug /\ (sentClear[e] = << >> \/ recvClear[e] = << >>)
+  THEN << << >>, << >> >>
+  ELSE <<sentClear[e], recvClear[e]>>
+Mirror(p) == <<p[2], p[1]>>
+
 (* e sends a frame after InstallKey: protected iff it holds a key *)
 SendMaybeProt(e, f) ==
   LET p == key[e] # NoKey
       first == p /\ protSent[e] = 0
       omit == "NoDigestOnResume" \in Bug /\ shape = "resume"
       g == [f EXCEPT !.prot = p, !.kk = key[e],
-                     !.digs = IF first /\ ~omit THEN <<sentClear[e], recvClear[e]>> ELSE NoDigs]
+                     !.digs = IF first /\ ~omit THEN Frozen(e) ELSE NoDigs]
   IN /\ chan' = [chan EXCEPT ![Out(e)] = Append(@, g)]
      /\ nsent' = [nsent EXCEPT ![Out(e)] = @ + 1]
      /\ protSent' = IF p THEN [protSent EXCEPT ![e] = @ + 1] ELSE protSent
@@ -235,7 +254,7 @@ Opens(e, f) ==
   ELSE /\ key[e] # NoKey /\ f.kk = key[e]
        /\ \/ "NoDigestOnResume" \in Bug /\ shape = "resume"
           \/ IF protRecv[e] = 0
-             THEN f.digs = <<recvClear[e], sentClear[e]>>      \* mirrored
+             THEN f.digs = Mirror(Frozen(e))
              ELSE f.digs = NoDigs
        /\ f.v = "orig"
 
@@ -251,7 +270,9 @@ ConfigureWith(cm, sm, cx, sx, cmd) ==
   /\ pc["c"] = "config"
   /\ SameLists => cm = sm
   /\ cfg' = MkCfg(cfg.c.auth, cfg.c.enc, cm, cx, cfg.s.auth, cfg.s.enc, sm, sx, cmd)
-  /\ pc' = [pc EXCEPT !["c"] = IF shape = "resume" THEN "rstart" ELSE "start"]
+  /\ pc' = [pc EXCEPT !["c"] = CASE shape \in {"resume", "resume1"} -> "rstart"
+                                  [] shape \in PreShapes -> "psend"
+                                  [] OTHER -> "start"]
   /\ UNCHANGED <<shape, chan, nsent, dec, cview, offer, sel, mstep, ran, key, sentClear, recvClear,
                  frozen, protSent, protRecv, confirmed, outcome, stored, appAccepted, relayLeft, tampered>>
 Configure ==
@@ -493,28 +514,40 @@ PostAuthRecv ==
 
 -----------------------------------------------------------------------------
 (* Resumption: the client names a cached session; both ends install its key.  *)
+ResumedOutcome == [st |-> "ok", why |-> "", auth |-> TRUE, enc |-> TRUE, method |-> "A",
+                   sid |-> "sid0", key |-> <<"k0">>, resumed |-> TRUE]
+
+(* "resume1": the request asks for no reply (ResumeResponse=false): the client
+   goes straight to the cached key; only the c2s direction carries cleartext. *)
 ResumeRequest ==
   /\ pc["c"] = "rstart"
-  /\ SendClear("c", Frame("c", "rreq", [sid |-> "sid0"]))
-  /\ pc' = [pc EXCEPT !["c"] = "rwait"]
-  /\ UNCHANGED <<cfg, shape, dec, cview, offer, sel, mstep, ran, key, recvClear, frozen,
-                 protSent, protRecv, confirmed, outcome, stored, appAccepted, relayLeft, tampered>>
+  /\ SendClear("c", Frame("c", "rreq", [sid |-> "sid0", reply |-> shape = "resume"]))
+  /\ IF shape = "resume1"
+     THEN /\ key' = [key EXCEPT !["c"] = <<"k0">>]
+          /\ frozen' = [frozen EXCEPT !["c"] = TRUE]
+          /\ outcome' = [outcome EXCEPT !["c"] = ResumedOutcome]
+          /\ pc' = [pc EXCEPT !["c"] = "app"]
+     ELSE /\ pc' = [pc EXCEPT !["c"] = "rwait"]
+          /\ UNCHANGED <<key, frozen, outcome>>
+  /\ UNCHANGED <<cfg, shape, dec, cview, offer, sel, mstep, ran, recvClear,
+                 protSent, protRecv, confirmed, stored, appAccepted, relayLeft, tampered>>
 
 ResumeReply ==
   /\ pc["s"] = "waitHello" /\ HasIn("s") /\ HeadIn("s").k = "rreq"
   /\ LET f == HeadIn("s")
          g == Frame("s", "rrsp", [ok |-> stored["s"]])
      IN /\ recvClear' = [recvClear EXCEPT !["s"] = Append(@, Item(f))]
-        /\ chan' = [PopIn("s") EXCEPT !["s2c"] = Append(@, g)]
-        /\ nsent' = [nsent EXCEPT !["s2c"] = @ + 1]
-        /\ sentClear' = [sentClear EXCEPT !["s"] = Append(@, Item(g))]
+        /\ IF f.body.reply
+           THEN /\ chan' = [PopIn("s") EXCEPT !["s2c"] = Append(@, g)]
+                /\ nsent' = [nsent EXCEPT !["s2c"] = @ + 1]
+                /\ sentClear' = [sentClear EXCEPT !["s"] = Append(@, Item(g))]
+           ELSE /\ chan' = PopIn("s")                    \* nothing is said in the clear
+                /\ UNCHANGED <<nsent, sentClear>>
         /\ IF stored["s"]
            THEN /\ key' = [key EXCEPT !["s"] = <<"k0">>]
                 /\ frozen' = [frozen EXCEPT !["s"] = TRUE]
                 /\ pc' = [pc EXCEPT !["s"] = "app"]
-                /\ outcome' = [outcome EXCEPT !["s"] =
-                     [st |-> "ok", why |-> "", auth |-> TRUE, enc |-> TRUE, method |-> "A",
-                      sid |-> "sid0", key |-> <<"k0">>, resumed |-> TRUE]]
+                /\ outcome' = [outcome EXCEPT !["s"] = ResumedOutcome]
            ELSE Fail("s", "nosession") /\ UNCHANGED <<key, frozen>>
   /\ UNCHANGED <<cfg, shape, dec, cview, offer, sel, mstep, ran, protSent, protRecv, confirmed,
                  stored, appAccepted, relayLeft, tampered>>
@@ -528,12 +561,58 @@ ResumeRecv ==
         THEN /\ key' = [key EXCEPT !["c"] = <<"k0">>]
              /\ frozen' = [frozen EXCEPT !["c"] = TRUE]
              /\ pc' = [pc EXCEPT !["c"] = "app"]
-             /\ outcome' = [outcome EXCEPT !["c"] =
-                  [st |-> "ok", why |-> "", auth |-> TRUE, enc |-> TRUE, method |-> "A",
-                   sid |-> "sid0", key |-> <<"k0">>, resumed |-> TRUE]]
+             /\ outcome' = [outcome EXCEPT !["c"] = ResumedOutcome]
         ELSE Fail("c", "nosession") /\ UNCHANGED <<key, frozen>>
   /\ UNCHANGED <<cfg, shape, nsent, dec, cview, offer, sel, mstep, ran, sentClear, protSent, protRecv,
                  confirmed, stored, appAccepted, relayLeft, tampered>>
+
+-----------------------------------------------------------------------------
+(* Pre-keyed streams ("preXY"): the bare digest mechanism of stream.Stream.  Both
+   ends hold the key k0 beforehand; the client sends X cleartext frames, the
+   server takes them and sends Y, the client takes those; then each end installs
+   the key (SetSymmetricKey) and the application messages follow.            *)
+PreOutcome == [st |-> "ok", why |-> "", auth |-> FALSE, enc |-> TRUE, method |-> "NONE",
+               sid |-> "pre", key |-> <<"k0">>, resumed |-> FALSE]
+
+PreInstalled(e) ==
+  /\ key' = [key EXCEPT ![e] = <<"k0">>]
+  /\ frozen' = [frozen EXCEPT ![e] = TRUE]
+  /\ outcome' = [outcome EXCEPT ![e] = PreOutcome]
+  /\ pc' = [pc EXCEPT ![e] = "app"]
+
+PreClientSend ==
+  /\ pc["c"] = "psend"
+  /\ IF PreC THEN SendClear("c", Frame("c", "pre", [x |-> 0])) ELSE UNCHANGED <<chan, nsent, sentClear>>
+  /\ pc' = [pc EXCEPT !["c"] = "precv"]
+  /\ UNCHANGED <<cfg, shape, dec, cview, offer, sel, mstep, ran, key, recvClear, frozen, protSent,
+                 protRecv, confirmed, outcome, stored, appAccepted, relayLeft, tampered>>
+
+PreClientRecv ==
+  /\ pc["c"] = "precv"
+  /\ IF PreS
+     THEN /\ HasIn("c") /\ HeadIn("c").k = "pre"
+          /\ chan' = PopIn("c")
+          /\ recvClear' = RecvClearT("c", HeadIn("c"))
+     ELSE UNCHANGED <<chan, recvClear>>
+  /\ PreInstalled("c")
+  /\ UNCHANGED <<cfg, shape, nsent, dec, cview, offer, sel, mstep, ran, sentClear, protSent,
+                 protRecv, confirmed, stored, appAccepted, relayLeft, tampered>>
+
+PreServer ==
+  /\ shape \in PreShapes /\ pc["s"] = "waitHello" /\ pc["c"] # "config"
+  /\ PreC => (HasIn("s") /\ HeadIn("s").k = "pre")
+  /\ LET g == Frame("s", "pre", [x |-> 0])
+         ch == IF PreC THEN PopIn("s") ELSE chan
+     IN /\ recvClear' = IF PreC THEN RecvClearT("s", HeadIn("s")) ELSE recvClear
+        /\ IF PreS
+           THEN /\ chan' = [ch EXCEPT !["s2c"] = Append(@, g)]
+                /\ nsent' = [nsent EXCEPT !["s2c"] = @ + 1]
+                /\ sentClear' = [sentClear EXCEPT !["s"] = Append(@, Item(g))]
+           ELSE /\ chan' = ch
+                /\ UNCHANGED <<nsent, sentClear>>
+  /\ PreInstalled("s")
+  /\ UNCHANGED <<cfg, shape, dec, cview, offer, sel, mstep, ran, protSent, protRecv, confirmed,
+                 stored, appAccepted, relayLeft, tampered>>
 
 -----------------------------------------------------------------------------
 (* One application message each way straight after the handshake.            *)
@@ -564,7 +643,7 @@ AppRecv(e) ==
    "abort" : timeout / parse error / local failure - always possible once the
              wire was tampered with, and on an honest wire when AllowAbort.  *)
 Waiting(e) == pc[e] \in {"waitHello", "waitAd", "waitOffer", "waitSel", "waitKx", "waitPost",
-                         "rwait", "appwait"}
+                         "rwait", "precv", "appwait"}
               \/ (pc[e] = "meth" /\ mstep[e] < Len(Script(sel[e])) /\ Script(sel[e])[mstep[e] + 1] = In(e))
 Abort(e) ==
   /\ ~Terminal(e)
@@ -633,6 +712,7 @@ Protocol ==
   \/ ClientHello \/ ServerNegotiate \/ ClientReadServerAd \/ BitmaskOffer \/ ServerSelect
   \/ ClientReadSelect \/ PostAuthSend \/ PostAuthRecv
   \/ ResumeRequest \/ ResumeReply \/ ResumeRecv
+  \/ PreClientSend \/ PreClientRecv \/ PreServer
   \/ \E e \in End : RunMethod(e) \/ KeyExchange(e) \/ InstallKey(e) \/ Store(e) \/ AppSend(e) \/ AppRecv(e)
 
 Honest == Configure \/ Protocol
@@ -685,7 +765,7 @@ HonestEncryptedTalks ==
      => \A e \in End : appAccepted[e] /\ confirmed[e]
 
 TypeOK ==
-  /\ pc \in [End -> {"config", "start", "waitAd", "offer", "waitSel", "meth", "waitKx", "install", "waitPost",
+  /\ pc \in [End -> {"config", "start", "psend", "precv", "waitAd", "offer", "waitSel", "meth", "waitKx", "install", "waitPost",
                      "store", "post", "app", "appwait", "done", "failed", "waitHello", "waitOffer",
                      "kx", "rstart", "rwait"}]
   /\ relayLeft \in 0..RelayBudget
